@@ -165,7 +165,8 @@ def carry(d, name):
 
 ROUTES = ('ctor', 'call', 'set_val', 'setitem')
 # the same store into a destination that has a history (see age_destination)
-HROUTES = ('set_val@copy64', 'call@copy_resized', 'setitem@view_resized', 'set_val@resized_back', 'call@used', 'setitem@used')
+HROUTES = ('set_val@copy64', 'call@copy_resized', 'setitem@view_resized', 'set_val@resized_back', 'call@used', 'setitem@used', 'set_val@huge', 'call@huge',
+           'setitem@huge')
 
 
 def age_destination(x, fmt, hist):
@@ -190,6 +191,12 @@ def age_destination(x, fmt, hist):
         x.resize(n_word=fmt[1])
     elif hist == 'used':
         warm(x)
+    elif hist == 'huge':                     # it has stored floats far beyond 2^64 (and a huge Python int) before: flags stay raised
+        x.config.overflow, ov = 'saturate', x.config.overflow
+        x.set_val((np.zeros(np.shape(x.val)) + 1e30) if arr else 1e30)
+        x.set_val((np.zeros(np.shape(x.val)) - 1e300) if arr else -1e300)
+        x.set_val(np.full(np.shape(x.val), 2 ** 200, dtype=object) if arr else 2 ** 200)
+        x.config.overflow = ov
     else:
         raise ValueError(hist)
 
